@@ -473,6 +473,16 @@ fn tile_scenario(dir: &Path, kind: &str, name: &str, coords: Vec<Vec<(u8, u32, u
 			cs.iter().map(|(z, x, y)| fmt(rt.block_on(reader.get_tile_data(&TileCoord3 { x: *x, y: *y, z: *z })))).collect()
 		})
 		.collect();
+	// vacuity guard: what a call returns alone must be the payload that was written (or none for absent tiles)
+	for (cs, es) in coords.iter().zip(expected.iter()) {
+		for ((z, x, y), e) in cs.iter().zip(es.iter()) {
+			let stored = [(0u8, 0u32, 0u32, 40usize), (9, 255, 5, 1500), (9, 256, 5, 30), (9, 256, 6, 2000), (9, 511, 511, 64), (3, 1, 2, 999)].iter().find(|t| (t.0, t.1, t.2) == (*z, *x, *y)).map(|t| format!("ok {}", hexs(&tile_payload(t.0, t.1, t.2, t.3)))).unwrap_or_else(|| "none".to_string());
+			if *e != stored {
+				eprintln!("MACHINERY: a lookup issued alone does not return the written payload for {kind} ({z},{x},{y}): {e} vs {stored} (C01's subject; the concurrency check would be vacuous)");
+				std::process::exit(2);
+			}
+		}
+	}
 	let coords2 = coords.clone();
 	let make = move || -> Vec<Body> {
 		let reader = open();
